@@ -193,6 +193,19 @@ def run(ctx):
         jobs.append({'fn': 'gxv.props.c20:entry_job', 'timeout': 900,
                      'args': {'text': gen.render(case, raw), 'mode': rng.choice(MODES[:3] + ['relative-subdir']), 'expect_fail': False,
                               'tag': {'example': name}}})
+    # sparse inputs that rely on the documented defaults (the in-process entry points run in a worker that has served other
+    # inputs before; the command line always starts fresh: state left behind by an earlier run shows as a difference)
+    from .c08 import OPTIONAL_KEYS
+    for i in range(ctx.pick(10, 60)):
+        cell = cells[(i * 3) % len(cells)]
+        lines = gen.render(gen.synth_case(rng, cell, addons=False, overpressure=False, sdac=False, nseg=1)).split('\n')
+        present = [k for k in OPTIONAL_KEYS if any(ln.split(',')[0].strip() == k for ln in lines)]
+        rng.shuffle(present)
+        drop = set(present[:max(2, len(present) // 2)]) | ({'Gradient 1'} if i % 2 == 0 else set())
+        text = '\n'.join(ln for ln in lines if ln.split(',')[0].strip() not in drop) + '\n'
+        jobs.append({'fn': 'gxv.props.c20:entry_job', 'timeout': 900,
+                     'args': {'text': text, 'mode': MODES[i % 3], 'expect_fail': False, 'tag': {'cell': list(cell), 'sparse': sorted(drop)[:6]},
+                              'namev': i}})
     # failing simulations
     fails = []
     for i in range(ctx.pick(14, 98)):
